@@ -206,14 +206,7 @@ def typesText (t : Typing) : String :=
   if t.row.size = 0 then "-" else ",".intercalate ((List.range t.row.size).map fun a => s!"{rowsF[t.row[a]!]!.name}:{envName t.env[a]!}")
 
 /-- `build <uff|rb> Z.. ; coords`: perceive, type, construct; print the assigned types and the sorted term list. -/
-def buildLine (line : String) : String :=
-  match line.splitOn " ; " with
-  | [l, r] =>
-    match words l with
-    | ["build", ff, zs] =>
-      let zs := parseNatList zs
-      let xs := parseCoords (words r)
-      let conn := perceiveAll zs (candidates zs.toArray xs)
+def buildCore (ff : String) (zs : List Nat) (xs : Array P3) (conn : Conn) : String :=
       if ff = "rb" then
         "types - terms " ++ showTerms (buildRB (fun a => covalentRadiusF (zs.getD a 0)) (· + ·) rbBondK.toFloat rbRepulsionC.toFloat
           rbExponent.toFloat conn)
@@ -223,6 +216,24 @@ def buildLine (line : String) : String :=
         match buildUFF uffFnsF (fun a => t.row[a]!) (fun a => t.env[a]!) (closeToLinearF xs) conn with
         | some ts => s!"types {typesText t} terms {showTerms ts}"
         | none => s!"types {typesText t} terms panic"
+
+/-- `build <uff|rb> Z.. ; coords` — perceive, type, construct — or `build <uff|rb> Z.. ; coords ; bonds` with the bond table
+given (`i-j:o2,...` as the bond-order matrix interface would install it: the lists are derived from exactly these bonds). -/
+def buildLine (line : String) : String :=
+  match line.splitOn " ; " with
+  | [l, r] =>
+    match words l with
+    | ["build", ff, zs] =>
+      let zs := parseNatList zs
+      let xs := parseCoords (words r)
+      buildCore ff zs xs (perceiveAll zs (candidates zs.toArray xs))
+    | _ => "bad-op"
+  | [l, r, b] =>
+    match words l with
+    | ["build", ff, zs] =>
+      let zs := parseNatList zs
+      let xs := parseCoords (words r)
+      buildCore ff zs xs (Conn.ofBonds zs.length (parseBonds b.trimAscii.toString))
     | _ => "bad-op"
   | _ => "bad-op"
 
